@@ -50,6 +50,7 @@ CovOf(t, S, z) ==
             LET RECURSIVE U(_)
                 U(k) == IF k = 0 THEN <<>> ELSE DHull(U(k - 1), CovOf(t.srcs[k], S, z))
             IN U(Len(t.srcs))
+      [] t.op = "debug" -> DFull(z)                     \* from_debug: a generated tile at every coordinate of every level
       [] t.op = "zoom" -> IF (t.min >= 0 /\ z < t.min) \/ (t.max >= 0 /\ z > t.max) THEN <<>> ELSE CovOf(t.src, S, z)
       [] t.op = "bbox" -> DInter(CovOf(t.src, S, z), GeoSel(t.geo, z))
 
@@ -57,6 +58,27 @@ CovOf(t, S, z) ==
 LawChain(t, S) ==
     (t.op \in {"zoom", "bbox"} /\ t.src.op \in {"zoom", "bbox"}) =>
         Sem(t, S) = Sem([t EXCEPT !.src = t.src.src], S) \cap Sem(t.src, S)
+
+(* from_debug generates a tile for EVERY coordinate, so its semantics is a predicate, not a finite set: a chain of
+   filters over it has a tile at c iff every filter lets c pass.  Tile contents are identified by a hash of the bytes. *)
+RECURSIVE DebugHas(_, _)
+DebugHas(t, c) ==
+    CASE t.op = "debug" -> c[1] <= 31
+      [] t.op = "zoom" -> (t.min < 0 \/ c[1] >= t.min) /\ (t.max < 0 \/ c[1] <= t.max) /\ DebugHas(t.src, c)
+      [] t.op = "bbox" -> DContains(GeoSel(t.geo, c[1]), c[2], c[3]) /\ DebugHas(t.src, c)
+DebugFails(r) ==
+    LET t == r.tree IN
+    Fails("build", r.built = 1) \cup
+    (IF r.built = 0 THEN {} ELSE
+     Fails("declared", r.declared.tc = "none") \cup
+     Fails("coverage", \A z \in 0..r.maxlevel : CovAt(r.cov, z) = CovOf(t, <<>>, z)) \cup
+     Fails("lookup", \A i \in 1..Len(r.lookups) :
+              LET a == r.lookups[i] IN IF DebugHas(t, <<a[1], a[2], a[3]>>) THEN a[4] > 0 ELSE a[4] = 0) \cup
+     \* every coordinate has its own content
+     Fails("debug_distinct", \A i, j \in 1..Len(r.lookups) :
+              (i # j /\ r.lookups[i][4] > 0 /\ r.lookups[j][4] > 0) => r.lookups[i][4] # r.lookups[j][4]) \cup
+     Fails("stream", \A i \in 1..Len(r.streams) :
+              r.streams[i].status = "ok" /\ r.streams[i].res = TilesInBox(r.expect, r.streams[i].box)))
 
 (* judging one observed operation *)
 PipeFails(r) ==
